@@ -39,6 +39,7 @@ def run(ctx):
     ctx.each(r08c, ctx, repo, cg)
     ctx.each(r08d, ctx, repo, cg, E)
     ctx.each(flowalg.process_prologue, ctx, repo, "R08f")
+    ctx.each(flowalg.stateless_step_rule, ctx, repo, "R08g")
     ctx.each(r08e, ctx, repo)
 
 
